@@ -203,110 +203,135 @@ def connectClause (lenient : Bool) (j : PairJ) (peer : Nat) (outs : List Out) : 
       else { j with live := some p.toNat, busy := false, armed := false }
     | _ => j) j
 
+/-- outputs on the peer connected before the step -/
+def onOld (old : Option Nat) (o : Out) : Bool :=
+  match o, old with
+  | .psend p _, some q => p == q
+  | .parm p, some q => p == q
+  | _, _ => false
+
+/-- the loss of the peer connected before the step -/
+def oldGone (old : Option Nat) (o : Out) : Bool :=
+  match o, old with
+  | .pclosed p, some q => p == q
+  | _, _ => false
+
+/-- bookkeeping caused by the event itself -/
+def pairPre (nq : Bool) (j : PairJ) (ev : Ev) (outs : List Out) : PairJ × Nb :=
+  let ok := outs.contains (.rv 0)
+  match ev with
+  | .openSock _ raw => ({ j with raw := raw }, .none)
+  | .send _ a m mode =>
+    match mode with
+    | .nb => (j, .send a m)
+    | _ => ({ j with pendingS := j.pendingS ++ [(a, m)] }, .none)
+  | .recv _ a mode =>
+    match mode with
+    | .nb => (j, .recv a)
+    | _ => ({ j with waitingR := j.waitingR ++ [a] }, .none)
+  | .setopt none "send-buffer" "int" v =>
+    if ok then ({ j with scap := v.toNat, unsent := if v.toNat < j.scap then excuseAll j.unsent else j.unsent }, .none)
+    else (j, .none)
+  | .setopt none "recv-buffer" "int" v =>
+    if ok then ({ j with rcap := v.toNat, held := if v.toNat < j.rcap then excuseAll j.held else j.held }, .none)
+    else (j, .none)
+  | .setopt none "ttl-max" "int" v =>
+    if ok then ({ j with ttl := v.toNat }, .none) else (j, .none)
+  | .sendDone p rv =>
+    if ok && rv == 0 && j.live == some p && j.busy then ({ j with busy := false }, .none) else (j, .none)
+  | .recvDone p (.ok b) =>
+    if ok then
+      if j.live != some p || !j.armed then (j.fail s!"pipe {p} took a message with no receive posted", .none)
+      else
+        let j := { j with armed := false }
+        let gone := outs.contains (.pclosed p)
+        match arrivalRule j.v1 j.ttl b with
+        | .close =>
+          if gone || nq then (j, .none) else (j.fail "a message with a malformed hop header did not disconnect its sender", .none)
+        | .drop =>
+          if gone then (j.fail "a message over the hop limit disconnected its sender", .none)
+          else if !nq && !(outs.contains (.parm p)) then (j.fail "no receive posted after discarding a message over the hop limit", .none)
+          else (j, .none)
+        | .deliver m =>
+          if gone then (j.fail "a well-formed message within the hop limit disconnected its sender", .none)
+          else ({ j with held := j.held ++ [⟨m, false⟩] }, .none)
+    else (j, .none)
+  | .recvDone p (.error _) =>
+    if ok && j.live == some p then ({ j with armed := false }, .none) else (j, .none)
+  | .close => ({ j with closed := true, unsent := excuseAll j.unsent, held := excuseAll j.held }, .none)
+  | _ => (j, .none)
+
+/-- the outputs of the step: completions first (a message must be accepted before it is wired);
+    then what happened on the peer connected so far and its loss; then the connection attempt;
+    then the rest -/
+def pairMid (nq : Bool) (nb : Nb) (ev : Ev) (outs : List Out) (j : PairJ) : PairJ :=
+  let racing := j.racing || nq
+  let old := j.live
+  let dones := outs.filter isDone
+  let rest := outs.filter (fun o => !isDone o)
+  let j := dones.foldl (pairOut nb) j
+  let j := (rest.filter (onOld old)).foldl (pairOut nb) j
+  let j := (rest.filter (oldGone old)).foldl (pairOut nb) j
+  -- (a send completion racing with the loss of its pipe may hand the next message to the dying pipe)
+  let j := if racing && rest.any (oldGone old) then { j with unsent := excuseAll j.unsent } else j
+  let j := match ev with
+    | .pipeAdd peer => connectClause racing j peer outs
+    | _ => j
+  (rest.filter (fun o => !onOld old o && !oldGone old o)).foldl (pairOut nb) j
+
+def isBlocked : Out → Bool | .blocked _ => true | _ => false
+
+/-- a non-blocking call must have completed in its own step -/
+def nbClause (nb : Nb) (outs : List Out) (j : PairJ) : PairJ :=
+  match nb with
+  | .send a _ => if (doneOf outs a).isSome then j else j.fail s!"non-blocking send {a} did not complete at once"
+  | .recv a => if (doneOf outs a).isSome then j else j.fail s!"non-blocking receive {a} did not complete at once"
+  | .none => j
+
+/-- pollable: the descriptor state seen by the previous `poll` must agree with this non-blocking call -/
+def pollClause (polled : Option (Bool × Bool)) (nb : Nb) (outs : List Out) (j : PairJ) : PairJ :=
+  match polled, nb with
+  | some (_, w), .send a _ =>
+    match doneOf outs a with
+    | some rv =>
+      if w && rv == Err.eagain then j.fail "send descriptor polled writable but a non-blocking send got NNG_EAGAIN"
+      else if !w && rv == 0 then j.fail "send descriptor polled not writable but a non-blocking send succeeded"
+      else j
+    | none => j
+  | some (r, _), .recv a =>
+    match doneOf outs a with
+    | some rv =>
+      if r && rv == Err.eagain then j.fail "receive descriptor polled readable but a non-blocking receive got NNG_EAGAIN"
+      else if !r && rv == 0 then j.fail "receive descriptor polled not readable but a non-blocking receive succeeded"
+      else j
+    | none => j
+  | _, _ => j
+
+/-- remember the result of a `poll` for the next step -/
+def recordPoll (ev : Ev) (outs : List Out) (j : PairJ) : PairJ :=
+  match ev with
+  | Ev.poll => outs.foldl (fun (j : PairJ) (o : Out) => match o with
+      | Out.poll (some r) (some w) => { j with lastPoll := some (r, w) }
+      | _ => j) j
+  | _ => j
+
+/-- clauses about the step as a whole: non-blocking calls, pollable descriptors -/
+def pairPost (nq : Bool) (polled : Option (Bool × Bool)) (nb : Nb) (ev : Ev) (outs : List Out) (j : PairJ) : PairJ :=
+  let j := nbClause nb outs j
+  let j := if outs.any isBlocked then j.fail "a non-blocking call blocked" else j
+  let j := pollClause polled nb outs j
+  let j := recordPoll ev outs j
+  { j with racing := nq }
+
 /-- one step of the judge.  `nq`: the harness applied the event without waiting for the
     library to quiesce (its callbacks race with the following events); then only the
     safety clauses apply, the end-of-step clauses wait for the next quiescent step. -/
 def pairStepWith (nq : Bool) (j : PairJ) (ev : Ev) (outs : List Out) : PairJ :=
   if j.err.isSome then j else
   if notExecuted outs then j else   -- the harness refused the line: nothing happened
-  let polled := j.lastPoll
-  let j := { j with lastPoll := none }
-  let ok := outs.contains (.rv 0)
-  -- bookkeeping caused by the event itself
-  let (j, nb) : PairJ × Nb :=
-    match ev with
-    | .openSock _ raw => ({ j with raw := raw }, .none)
-    | .send _ a m mode =>
-      match mode with
-      | .nb => (j, .send a m)
-      | _ => ({ j with pendingS := j.pendingS ++ [(a, m)] }, .none)
-    | .recv _ a mode =>
-      match mode with
-      | .nb => (j, .recv a)
-      | _ => ({ j with waitingR := j.waitingR ++ [a] }, .none)
-    | .setopt none "send-buffer" "int" v =>
-      if ok then ({ j with scap := v.toNat, unsent := if v.toNat < j.scap then excuseAll j.unsent else j.unsent }, .none)
-      else (j, .none)
-    | .setopt none "recv-buffer" "int" v =>
-      if ok then ({ j with rcap := v.toNat, held := if v.toNat < j.rcap then excuseAll j.held else j.held }, .none)
-      else (j, .none)
-    | .setopt none "ttl-max" "int" v =>
-      if ok then ({ j with ttl := v.toNat }, .none) else (j, .none)
-    | .sendDone p rv =>
-      if ok && rv == 0 && j.live == some p && j.busy then ({ j with busy := false }, .none) else (j, .none)
-    | .recvDone p (.ok b) =>
-      if ok then
-        if j.live != some p || !j.armed then (j.fail s!"pipe {p} took a message with no receive posted", .none)
-        else
-          let j := { j with armed := false }
-          let gone := outs.contains (.pclosed p)
-          match arrivalRule j.v1 j.ttl b with
-          | .close =>
-            if gone || nq then (j, .none) else (j.fail "a message with a malformed hop header did not disconnect its sender", .none)
-          | .drop =>
-            if gone then (j.fail "a message over the hop limit disconnected its sender", .none)
-            else if !nq && !(outs.contains (.parm p)) then (j.fail "no receive posted after discarding a message over the hop limit", .none)
-            else (j, .none)
-          | .deliver m =>
-            if gone then (j.fail "a well-formed message within the hop limit disconnected its sender", .none)
-            else ({ j with held := j.held ++ [⟨m, false⟩] }, .none)
-      else (j, .none)
-    | .recvDone p (.error _) =>
-      if ok && j.live == some p then ({ j with armed := false }, .none) else (j, .none)
-    | .close => ({ j with closed := true, unsent := excuseAll j.unsent, held := excuseAll j.held }, .none)
-    | _ => (j, .none)
-  -- completions first (a message must be accepted before it is wired); then what happened
-  -- on the peer connected so far and its loss; then the connection attempt; then the rest
-  let racing := j.racing || nq
-  let old := j.live
-  let onOld : Out → Bool := fun o => match o, old with
-    | .psend p _, some q => p == q
-    | .parm p, some q => p == q
-    | _, _ => false
-  let oldGone : Out → Bool := fun o => match o, old with
-    | .pclosed p, some q => p == q
-    | _, _ => false
-  let dones := outs.filter isDone
-  let rest := outs.filter (fun o => !isDone o)
-  let j := dones.foldl (pairOut nb) j
-  let j := (rest.filter onOld).foldl (pairOut nb) j
-  let j := (rest.filter oldGone).foldl (pairOut nb) j
-  -- (a send completion racing with the loss of its pipe may hand the next message to the dying pipe)
-  let j := if racing && rest.any oldGone then { j with unsent := excuseAll j.unsent } else j
-  let j := match ev with
-    | .pipeAdd peer => connectClause racing j peer outs
-    | _ => j
-  let j := (rest.filter (fun o => !onOld o && !oldGone o)).foldl (pairOut nb) j
-  -- a non-blocking call must have completed in its own step
-  let j := match nb with
-    | .send a _ => if (doneOf outs a).isSome then j else j.fail s!"non-blocking send {a} did not complete at once"
-    | .recv a => if (doneOf outs a).isSome then j else j.fail s!"non-blocking receive {a} did not complete at once"
-    | .none => j
-  let j := if outs.any (fun o => match o with | .blocked _ => true | _ => false) then j.fail "a non-blocking call blocked" else j
-  -- pollable: the descriptor state seen by the previous `poll` must agree with this non-blocking call
-  let j := match polled, nb with
-    | some (_, w), .send a _ =>
-      match doneOf outs a with
-      | some rv =>
-        if w && rv == Err.eagain then j.fail "send descriptor polled writable but a non-blocking send got NNG_EAGAIN"
-        else if !w && rv == 0 then j.fail "send descriptor polled not writable but a non-blocking send succeeded"
-        else j
-      | none => j
-    | some (r, _), .recv a =>
-      match doneOf outs a with
-      | some rv =>
-        if r && rv == Err.eagain then j.fail "receive descriptor polled readable but a non-blocking receive got NNG_EAGAIN"
-        else if !r && rv == 0 then j.fail "receive descriptor polled not readable but a non-blocking receive succeeded"
-        else j
-      | none => j
-    | _, _ => j
-  let j : PairJ := match ev with
-    | Ev.poll => outs.foldl (fun (j : PairJ) (o : Out) => match o with
-        | Out.poll (some r) (some w) => { j with lastPoll := some (r, w) }
-        | _ => j) j
-    | _ => j
-  let j := { j with racing := nq }
-  if nq then j else pairQuiescent j
+  let pre := pairPre nq { j with lastPoll := none } ev outs
+  let j' := pairPost nq j.lastPoll pre.2 ev outs (pairMid nq pre.2 ev outs pre.1)
+  if nq then j' else pairQuiescent j'
 
 def pairStep (j : PairJ) (ev : Ev) (outs : List Out) : PairJ := pairStepWith false j ev outs
 
